@@ -205,7 +205,7 @@ def siteName : PanicSite → String
   | .chunksZero => "chunksZero" | .resetDimUnderflow => "resetDimUnderflow"
   | .animWrittenOverflow => "animWrittenOverflow" | .seqOverflow => "seqOverflow"
   | .chunkBufferIndex => "chunkBufferIndex" | .rowSlice => "rowSlice"
-  | .unreachableWrapper => "unreachableWrapper" | .nextFrameInfoOverflow => "nextFrameInfoOverflow"
+  | .unreachableWrapper => "unreachableWrapper"
   | .assertIndexZero => "assertIndexZero" | .setFctlNotAnimated => "setFctlNotAnimated"
   | .toWriteUnderflow => "toWriteUnderflow"
 
@@ -251,7 +251,13 @@ def c12 (args : List String) : String :=
   | [cmd, cfg, sink, table, steps, fin] =>
     if cmd != "run" && cmd != "skeleton" then "bad-op" else
     match parseCfg cfg, parseSink sink, parseTable table, parseSteps steps, parsePFinal fin with
-    | some c, some beh, some t, some st, some pf =>
+    | some c0, some beh, some t, some st, some pf =>
+      -- `fc=` = the `Encoder::with_info` path
+      let viaInfo := (cfg.splitOn ",").any (·.startsWith "fc=")
+      let c1 : Cfg := if viaInfo ∧ c0.actl.isNone then { c0 with actl := some (1, 0) } else c0
+      match (if viaInfo then withInfo c1 else .ok c1) with
+      | .error e => s!"hdr={resName (.err e)} ops= fin= iend=0 n=0 fnv={hex64' (fnv64 ByteArray.empty)} sk= v={showVerdict (validPng ByteArray.empty)}"
+      | .ok c =>
       let r := runProg (tableCodec t) (tableZ t) c beh st pf
       let bytes := ofList r.state.sink.bytes
       let finS := match pf with
